@@ -434,8 +434,9 @@ H("C20", "debugger::command::reader::terminal::verif_h::c20_kernels_len3", TERMF
   stubs=["char::is_whitespace / char::is_alphanumeric -> exact answers on the alphabet"],
   functions=["find_word_next", "find_word_back", "count_chars_bytes", "insert_char_index", "remove_char_index"],
   what="all 125 strings of 3 characters x every cursor x both word modes", bounds="3 characters")
-H("C20", "debugger::command::reader::terminal::verif_h::c20_next_command_split", TERMF, covers=1, timeout=2400, functions=["Terminal::get_next_command"],
-  what="submitted line of <= 3 bytes over {a, ';', space} split at ';'", bounds="<= 3 bytes")
+for n in (1, 2, 3):
+    H("C20", f"debugger::command::reader::terminal::verif_h::c20_next_command_split_len{n}", TERMF, tier=("quick" if n == 2 else "thorough"), covers=1, timeout=2400,
+      functions=["Terminal::get_next_command"], what=f"submitted line of {n} bytes over {{a, ';', space}} split at ';'", bounds=f"{n} bytes")
 
 # ------------------------------------------------------------------ C15
 EVALF = "src/debugger/eval.rs"
